@@ -35,6 +35,27 @@ def run(ctx):
                            'a child can be returned for an index that is not known to be below 2^31', fi.where,
                            expected='guard index >= 2**31 that raises, dominating the derivation',
                            found='upper bound of index on this path: %s' % hi)
+            # within the non-hardened range the only refusals BIP32 defines are IL >= n and K_i = infinity; a child
+            # must remain derivable (some returning exit whose path conditions do not contradict the facts the
+            # validating calls on that path establish)
+            e3 = Evaluator(p, be)
+            f3 = Facts().add(T.not_(T.lt(i, T.const(0)))).add(T.lt(i, T.const(H)))
+            v3, r3 = e3.call_function('bip32.PubKeyNode.ckd', [node, i], facts=f3)
+            IL = T.slice_(SP.hmac512(c, T.cat(T.sec(P, T.TRUE), SP.ser32(i))), T.const(0), T.const(32))
+            il = T.int_(IL, BIG)
+            allowed = {T.not_(T.lt(il, T.CURVE_N)), T.eq(T.pt_add(T.pt(IL), P), T.INFINITY),
+                       T.not_(T.raw_op('VALID_SK', IL))}
+            for cs, leaf in raise_leaves(v3):
+                trig = T.hoist(cs[-1]) if cs else None
+                ok = trig is not None and any(trig == T.hoist(a) or T.assume(trig, set(cs[:-1])) == T.assume(a, set(cs[:-1]))
+                                              for a in allowed)
+                ob.require(ok, 'PubKeyNode.ckd refuses (%s) under a condition that BIP32 does not declare invalid' % leaf[1],
+                           fi.where, expected='only IL >= n or K_i == infinity',
+                           found=T.show(cs[-1], maxdepth=5) if cs else 'unconditional')
+            feas = [cs for cs, leaf in normal_leaves(v3) if not contradictory(known_at(r3, cs))]
+            ob.require(len(feas) >= 1, 'no returning exit of PubKeyNode.ckd is feasible for a non-hardened index: every '
+                       'path that returns a child assumes a condition the validating calls on it exclude', fi.where,
+                       found=[[T.show(x, maxdepth=4) for x in cs] for cs, _ in normal_leaves(v3)][:3])
             for lo_, hi_ in ((H, H), (H + 1, 2 ** 32 - 1), (2 ** 32, None)):
                 e2 = Evaluator(p, be)
                 facts = Facts().add(T.not_(T.lt(i, T.const(lo_))))
